@@ -445,11 +445,6 @@ func (g *gram) expectRes(t string) {
 // may follow its closing token.
 func (g *gram) afterCompound(c *ast.Cmd) *ast.Cmd {
 	c.Redirs = g.redirs()
-	if len(c.Redirs) > 0 {
-		if s := g.peek(); s != nil && s.kind == kWord && reservedWords[s.text] {
-			g.dontcare("a reserved word directly after the redirection of a compound command")
-		}
-	}
 	return c
 }
 
